@@ -141,7 +141,12 @@ def r2(ctx, rep):
     ok = bool(w) and lit_val(w[0]["a"][1]) == "{}:{}-{}" and [show(a) for a in w[0]["a"][2:]] == ["self.source_id", "self.start", "self.end"]
     rep.check(ok, "span:writer", f"Span's text form must be `source_id:start-end`; found {[show(a) for a in w[0]['a'][1:]] if w else None}", file=dbg[0]["file"], line=dbg[0]["l"], fn=dbg[0]["path"])
     ser = [f for f in syn.fns if f["crate"] == "prqlc_parser" and f.get("self_short") == "Span" and f.get("trait_short") == "Serialize"]
-    rep.check(len(ser) == 1 and "format!('{self:?}')" in show_stmts(ser[0]["body"], maxdepth=8) and "serializer.serialize_str(&str)" in show_stmts(ser[0]["body"], maxdepth=8), "span:serialize",
+    ser_ok = False
+    if len(ser) == 1:
+        As = __import__("alpha").Inliner(ser[0])
+        calls_ser = [n for n in walk(ser[0]["body"]) if n.get("k") == "mcall" and n["m"] == "serialize_str" and n["a"]]
+        ser_ok = len(calls_ser) == 1 and As.show(calls_ser[0]["a"][0], strip=True).replace('"', "'") in ("format!('{self:?}')", "format!('{:?}', self)")
+    rep.check(ser_ok, "span:serialize",
               "Span must serialise as that Debug text", file=ser[0]["file"] if ser else None, line=ser[0]["l"] if ser else None)
     de = [f for f in syn.fns if f["crate"] == "prqlc_parser" and f["file"].endswith("span.rs") and f.get("trait_short") == "Deserialize"]
     if len(de) != 1:
